@@ -420,6 +420,12 @@ def standard_check(mod, tier, seed):
         rep.cov["translator"] = run_gotab(mod)
     except BuildError as e:
         broken.append(("translator", e.what + ": " + first_error(e.log)))
+    # further translators of this property (e.g. gosync's structural facts), also before the theorems are built
+    if hasattr(mod, "translate"):
+        try:
+            rep.cov["translator_extra"] = mod.translate()
+        except BuildError as e:
+            broken.append(("translator", e.what + ": " + first_error(e.log)))
 
     # 2. theorems
     ok, log = coq_build([mod.PROPS[:-2] + ".vo"], clean=(tier == "thorough" and os.environ.get("VERIF_CLEAN") == "1"))
@@ -469,6 +475,11 @@ def standard_check(mod, tier, seed):
     if os.path.exists(corpus):
         lines += [l.rstrip("\n") for l in open(corpus) if l.strip() and not l.startswith("#")]
     ncorpus = len(lines)
+    # a proof obligation / table theorem / build no longer checks: search harder for a concrete input
+    # (case generators that sample in the quick tier sweep their whole finite domain instead)
+    if broken:
+        os.environ["VERIF_SEARCH_HARDER"] = "1"
+        rep.cov["search_harder"] = True
     lines += mod.cases(tier, rng)
     shards = NCPU if tier == "thorough" or len(lines) > 2000 else min(NCPU, 8)
     impl_lines = lines
